@@ -130,6 +130,11 @@ pub fn joint(prog: &[Stmt], pr: &Printed) -> Option<Joint> {
                 if k == "IncompatibleTypesError" && w.has_unresolved.contains(&o) {
                     continue;
                 }
+                // an ill-typed operand makes the enclosing expressions ill-typed too: further
+                // reports of the same kind on the same statement are not excluded by the rule
+                if k == "IncompatibleTypesError" && e > 0 && a > e {
+                    continue;
+                }
                 if k.starts_with("NumGate") && w.arity_unjudged.contains(&o) {
                     continue;
                 }
@@ -388,7 +393,8 @@ pub fn run_c13(ctx: &RunCtx) {
 
 /// Small fixed programs covering each rule in both directions (deterministic, every tier).
 fn deterministic_forms(ctx: &RunCtx, prefix: &str) {
-    let progs = crate::semforms::fixed_programs();
+    let mut progs = crate::semforms::fixed_programs();
+    progs.extend(crate::semforms::probe_matrix());
     ctx.par_units(progs.len(), |i, st| {
         let (name, prog) = &progs[i];
         let seed = [0u32; 0];
